@@ -32,26 +32,29 @@ func ServerCallOf(ctx context.Context) *Call {
 // Knobs are the per-call transport parameters and fault plan, fixed before
 // the call starts (generated from the tape by the workload).
 type Knobs struct {
-	HTTP10       bool          // crafted requests only: the request is HTTP/1.0 (no chunking, hence no trailers: net/http drops them silently)
-	PumpLag      time.Duration // after forwarding request-body bytes the transport goroutine is busy this long before it reads again
-	FinishLag    time.Duration // the end of the response (END_STREAM / last chunk) follows the handler's return this late
-	MutateURL    bool          // the HTTPClient edits request.URL in place (per-call query parameter)
-	HTTP2        bool
-	UpWindow     int
-	DownWindow   int
-	UpFrag       int // 0 whole, 1 random, 2 one byte
-	DownFrag     int
-	UpEOFData    bool
-	DownEOFData  bool
-	AutoFlush    bool
-	Lazy         bool // HTTP/2 only: never close the request body on its own after the handler returned
-	PostAccept   int  // bytes accepted after the handler returned before the request body is closed (HTTP/2)
-	ExtraHeaders bool
-	NoFlusher    bool  // the handler's ResponseWriter is not an http.Flusher (a wrapping middleware hides it)
-	H1Close      bool  // HTTP/1.1: the server closes the connection when request bytes keep coming after its answer (see runPump)
-	UpScript     []int // scripted read sizes (enumeration worlds); nil: use UpFrag
-	DownScript   []int
-	OneByteMax   int // one-byte delivery applies only to the first OneByteMax bytes of a direction (0: all)
+	HTTP10          bool          // crafted requests only: the request is HTTP/1.0 (no chunking, hence no trailers: net/http drops them silently)
+	PumpLag         time.Duration // after forwarding request-body bytes the transport goroutine is busy this long before it reads again
+	FinishLag       time.Duration // the end of the response (END_STREAM / last chunk) follows the handler's return this late
+	MutateURL       bool          // the HTTPClient edits request.URL in place (per-call query parameter)
+	HTTP2           bool
+	UpWindow        int
+	DownWindow      int
+	UpFrag          int // 0 whole, 1 random, 2 one byte
+	DownFrag        int
+	UpEOFData       bool
+	DownEOFData     bool
+	AutoFlush       bool
+	Lazy            bool // HTTP/2 only: never close the request body on its own after the handler returned
+	PostAccept      int  // bytes accepted after the handler returned before the request body is closed (HTTP/2)
+	ExtraHeaders    bool
+	NoFlusher       bool          // the handler's ResponseWriter is not an http.Flusher (a wrapping middleware hides it)
+	ArriveLag       time.Duration // the request reaches the handler this much (fake clock) after Do sent it
+	H1LateClose     bool          // HTTP/1.1 over TLS: on cancellation the server hears of it before the client's socket is closed (see runWatcher)
+	H1LateCloseSlow bool          // ... and the socket\'s close is slow in coming
+	H1Close         bool          // HTTP/1.1: the server closes the connection when request bytes keep coming after its answer (see runPump)
+	UpScript        []int         // scripted read sizes (enumeration worlds); nil: use UpFrag
+	DownScript      []int
+	OneByteMax      int // one-byte delivery applies only to the first OneByteMax bytes of a direction (0: all)
 
 	// faults
 	DoErr        error // Do fails before anything is sent
@@ -100,10 +103,10 @@ var Points = []string{
 	"read.body", "closeread.discard", "closeread.close",
 	"seterror.enter", "seterror.pipe", "ready.woken",
 	"request.enter", "request.done", "request.validated", "request.finish",
-	"receive.failed",
+	"receive.failed", "watch.woken",
 }
 
-const NumPoints = 17
+const NumPoints = 18
 
 var pointIndex = func() map[string]int {
 	m := map[string]int{}
@@ -270,6 +273,8 @@ func (c *Call) RequestStart() time.Time { return c.requestStart }
 
 // Exchange is one HTTP request/response pair.
 type Exchange struct {
+	lateWindow          bool // between the two phases of an HTTP/1.1-over-TLS cancellation
+	LateWindows         int  // how often that window opened
 	upEOF               bool // the pump has seen the end of the request body
 	RespClose           bool // HTTP/1.1: the answer announces that the server will close the connection (it has given up on the request)
 	ConnClosedOnUpload  bool // HTTP/1.1: the server closed the connection on a client that kept uploading after the answer
@@ -544,6 +549,32 @@ func (e *Exchange) runWatcher() {
 	if err == nil {
 		return
 	}
+	if !e.Call.K.HTTP2 && e.Call.K.H1LateClose {
+		// HTTP/1.1 over TLS: the transport cancels by closing the connection,
+		// and a TLS connection says goodbye (close_notify) before its socket is
+		// closed. The server may see that, cancel the handler and end the
+		// response while the client's socket is still open: a body read that was
+		// blocked since before the context ended can still return what the
+		// server sent in reaction - net/http does not look at the context when
+		// a read returns data or a clean EOF.
+		e.mu.Lock()
+		over := e.abortErr != nil
+		if !over {
+			e.lateWindow = true
+			e.LateWindows++
+			e.updateDeaf()
+			e.Up.Abort(err)
+			e.cancelSrv()
+		}
+		e.mu.Unlock()
+		if !over {
+			e.Call.S.GateOpt(e.Call.ID+"/ctxwatch.socket", nil, core.FlagDaemon)
+			e.mu.Lock()
+			e.lateWindow = false
+			e.updateDeaf()
+			e.mu.Unlock()
+		}
+	}
 	e.Abort(err)
 }
 
@@ -560,7 +591,7 @@ func (e *Exchange) updateDeaf() {
 	// (HTTP/1.1 before the response: RoundTrip does notice the context, but it
 	// returns only once the write loop has ended - mapRoundTripError waits for
 	// it - and the write loop is blocked reading the request body.)
-	e.Call.Ctx.SetDeaf(e.pumpInRead && (e.Call.K.HTTP2 && e.RespReturned || !e.Call.K.HTTP2 && !e.RespReturned))
+	e.Call.Ctx.SetDeaf(e.lateWindow || e.pumpInRead && (e.Call.K.HTTP2 && e.RespReturned || !e.Call.K.HTTP2 && !e.RespReturned))
 }
 
 func (e *Exchange) runPump() {
@@ -704,6 +735,10 @@ func (e *Exchange) runHandler() {
 		if c.K.HTTP10 {
 			sreq.Proto, sreq.ProtoMinor = "HTTP/1.0", 0
 		}
+	}
+	if c.K.ArriveLag > 0 {
+		// transit: the server's clock starts later than the client's
+		c.S.Gate(c.ID+"/handler.arrive", &lagPred{until: time.Now().Add(c.K.ArriveLag)})
 	}
 	var rw http.ResponseWriter = &respWriter{e: e}
 	if c.K.NoFlusher {
